@@ -4,6 +4,14 @@ namespace SecureMsg
 
 def BytesOK (bs : Bytes) : Prop := ∀ b ∈ bs, b < 256
 
+/-- results of the codecs can be compared by `decide` -/
+instance {α : Type} [DecidableEq α] : DecidableEq (Except Err α) := fun a b =>
+  match a, b with
+  | .ok x, .ok y => if h : x = y then isTrue (by rw [h]) else isFalse (fun e => h (by injection e))
+  | .error x, .error y => if h : x = y then isTrue (by rw [h]) else isFalse (fun e => h (by injection e))
+  | .ok _, .error _ => isFalse (fun e => by cases e)
+  | .error _, .ok _ => isFalse (fun e => by cases e)
+
 instance (bs : Bytes) : Decidable (BytesOK bs) := inferInstanceAs (Decidable (∀ b ∈ bs, b < 256))
 
 theorem le_length (n v : Nat) : (le n v).length = n := by
